@@ -102,67 +102,119 @@ var channels = []channel{
 		B: `echo json_encode(getenv('C20_ENV_MARK'));`},
 }
 
+// ---- reset-per-run cells: every way a script dirties the cell × every function that reads it
+//
+// The cells whose discipline (Proofs/C20Sites.lean) is "reset before read" / "restored at the end of
+// the run" are clean only as long as the reset is really executed on every run. For each such cell
+// that a script can leave in more than one state, the translator lists the functions that read it
+// (Generated/C20Resets.lean); C20Sites.probes maps each of them to the channels below (checked by
+// C20_reset_observers_probed; probeTableCheck checks the names exist here). A = one way of
+// dirtying, B = a program that reaches the reader before anything else could mask the effect
+// (B itself prints nothing to stdout before the diagnostic).
+type side struct{ Name, Code string }
+
+type resetCell struct {
+	Prefix    string
+	Dirtiers  []side // A sides
+	Observers []side // B sides
+}
+
+var resetCells = []resetCell{
+	{Prefix: "reset:user-output", // data.userOutputEmitted: MarkUserOutput (DefaultOutputWriter, var_dump) / HasUserOutput
+		Dirtiers: []side{
+			{"echo", `echo "a printed something";`},
+			{"var_dump", `var_dump(1);`},
+			{"inline-html", `$x = 1; ?>text outside the php tags<?php $y = 2;`},
+		},
+		Observers: []side{
+			// parser.printPHPUncaughtError
+			{"uncaught-error", `abstract class C20AbsU { abstract function f(); } $x = new C20AbsU();`},
+			// parser.printPHPCompileFatal
+			{"compile-fatal", `abstract class C20Abs { abstract function f(); abstract function g(); } class C20Conc extends C20Abs { } $x = new C20Conc();`},
+			// core.CallUserFuncFunction.resolveObjectCallback (Deprecated: Callables of the form …)
+			{"callable-deprecation", `class C20K { static function m() { return 1; } function go() { return call_user_func([$this, 'C20K::m']); } } $k = new C20K(); $r = $k->go();`},
+		}},
+	{Prefix: "reset:output-writer", // data.WriteOutput (+ core.obStack): ob_start / FlushAllBuffers at the end of the run and in the throw control
+		Dirtiers: []side{
+			{"open-buffer", `ob_start(); echo "inside-A";`},
+			{"throw-in-buffer", `ob_start(); echo "inside-A"; throw new Exception("A dies inside a buffer");`},
+		},
+		Observers: []side{
+			{"echo", `echo "b-out"; echo ob_get_level();`},                          // node.EchoStatement.GetValue
+			{"inline-html", `$x = 1; ?>b-inline<?php $y = ob_get_level();`},         // node.InlineHTMLNode.GetValue
+			{"open-buffer", `ob_start(); echo "b-buffered"; ob_start(); echo "2";`}, // core.FlushAllBuffers
+		}},
+	// core.headerCallbacks: header_register_callback / RunHeaderCallbacks at shutdown. The callbacks print with
+	// var_dump: `echo` would set core.headerOutputStarted (a listed residue channel) and mask the probe, and
+	// fwrite(STDERR, …) prints nothing in this interpreter.
+	{Prefix: "reset:header-callbacks",
+		Dirtiers: []side{
+			{"registered", `header_register_callback(function() { var_dump("A-header-callback"); });`},
+		},
+		Observers: []side{
+			{"register", `header_register_callback(function() { var_dump("B-header-callback"); });`}, // HeaderRegisterCallbackFunction.Call
+			{"shutdown", `$x = 1;`}, // core.RunHeaderCallbacks (stored in the hook by php.Load)
+			{"shutdown-after-callbacks", `register_shutdown_function(function() { var_dump("B-shutdown"); });`},
+		}},
+}
+
+func init() {
+	for _, rc := range resetCells {
+		for _, d := range rc.Dirtiers {
+			for _, o := range rc.Observers {
+				channels = append(channels, channel{Name: rc.Prefix + ":" + d.Name + "->" + o.Name, A: d.Code, B: o.Code})
+			}
+		}
+	}
+}
+
 func (e *env) chanProg(name, role, code string) *prog {
 	p := &prog{Name: "channel:" + name + ":" + role, Origin: "dirty", Src: "<?php\n" + code + "\n"}
 	e.materialise(p)
 	return p
 }
 
-// vmAlone: the outcomes of a program on fresh VMs with nothing run before.
-func (e *env) vmAlone(ps []*prog, reps int) {
-	var jobs []vmJob
-	for i, p := range ps {
-		jobs = append(jobs, vmJob{ID: i, Files: []string{p.File}, Reps: reps, Dir: p.Dir})
-	}
-	for i, r := range runVMJobs(e.c.Scratch, e.c.Workers, jobs, 120*time.Second) {
-		if r.OK && len(r.Ans.Distinct[0]) == 1 {
-			o := r.Ans.Distinct[0][0]
-			ps[i].vmOutcome = &o
-		} else if r.OK && len(r.Ans.Distinct[0]) > 1 {
-			t := &tally{}
-			for j, o := range r.Ans.Distinct[0] {
-				for n := 0; n < r.Ans.Counts[0][j]; n++ {
-					t.add(o, ps[i].MaskLog)
-				}
-			}
-			ps[i].vmUnstable = t.describe()
-		}
-	}
-}
-
-// pairCheck runs A then B (each on its own fresh VM, same process) and compares what B shows with
-// B alone. main=true: a difference is a violation (signature from the programs); otherwise the
-// pair probes a listed channel and a difference confirms the known finding.
+// pairCheck runs A then B (each on its own fresh VM) in a fresh process and compares what B shows
+// with B as the first program of a fresh process. main=true: a difference is a violation (signature
+// from the programs); otherwise the pair probes a listed channel and a difference confirms the
+// known finding.
 func (e *env) pairCheck(cases []pairCase, main bool) {
 	c := e.c
 	var need []*prog
 	for _, pc := range cases {
-		if pc.B.vmOutcome == nil {
+		if pc.B.alone == nil {
 			need = append(need, pc.B)
 		}
 	}
-	if len(need) > 0 {
-		e.vmAlone(need, 2)
-	}
+	e.aloneOf(need)
+	e.channelProgsAgainstCLI(cases)
 	var jobs []vmJob
 	var idx []int
 	for i, pc := range cases {
-		if pc.B.vmOutcome == nil && pc.Sig != "" && pc.B.vmUnstable != "" {
-			// the probe alone already shows different outcomes on successive fresh VMs of one process: what an
-			// earlier run (of the probe itself) left behind is visible
+		if pc.B.alone != nil && pc.B.selfAfter != nil {
+			// the probe run twice in one fresh process (two fresh VMs) already shows two outcomes: what its own first
+			// run left behind is visible to the second
 			c.Eval("pair:"+pc.A.Src+"\x00"+pc.B.Src, true)
-			c.Violation(pc.Sig, fmt.Sprintf("the probe %s run on successive fresh VMs of one process shows different outcomes: %s", pc.B.Name, clip(pc.B.vmUnstable, 600)),
-				repCase{Kind: "pair", P: stripped(pc.B), A: ptr(stripped(pc.A)), Mode: pc.Sig})
+			what := fmt.Sprintf("the program %s run on two successive fresh VMs of one fresh process shows different outcomes: first %q, second %q", pc.B.Name,
+				clip(pc.B.alone.key(pc.B.MaskLog), 300), clip(pc.B.selfAfter.key(pc.B.MaskLog), 300))
+			if pc.Sig != "" {
+				c.Violation(pc.Sig, what, repCase{Kind: "pair", P: stripped(pc.B), A: ptr(stripped(pc.A)), Mode: pc.Sig})
+			} else {
+				c.Violation("residue:"+featureOf(pc.B)+"->"+featureOf(pc.B), what, repCase{Kind: "pair", P: stripped(pc.B), A: ptr(stripped(pc.B))})
+			}
 			continue
 		}
-		if pc.B.vmOutcome == nil || pc.A.NoVM || pc.B.NoVM {
-			c.Hit("pair.skipped-B-not-stable-alone")
+		if pc.B.alone == nil || pc.A.NoVM || pc.B.NoVM {
+			c.Hit("pair.skipped-B-does-not-complete-alone")
+			if pc.A.Origin == "dirty" && !pc.A.NoVM && !pc.B.NoVM {
+				c.Mismatch(repCase{Kind: "pair", P: stripped(pc.B), A: ptr(stripped(pc.A)), Mode: pc.Sig}, "", "", fmt.Sprintf("channel probe %s does not complete as the first program of a fresh process: the channel is not exercised", pc.B.Name))
+			}
 			continue
 		}
 		jobs = append(jobs, vmJob{ID: i, Files: []string{pc.A.File, pc.B.File}, Reps: 2, Dir: pc.B.Dir})
 		idx = append(idx, i)
 	}
-	res := runVMJobs(c.Scratch, c.Workers, jobs, 120*time.Second)
+	res := runFreshJobs(c.Scratch, c.Workers, jobs, 120*time.Second)
 	for k, r := range res {
 		pc := cases[idx[k]]
 		c.Eval("pair:"+pc.A.Src+"\x00"+pc.B.Src, true)
@@ -171,14 +223,14 @@ func (e *env) pairCheck(cases []pairCase, main bool) {
 			c.Hit("pair.child-died")
 			if pc.Sig != "" {
 				// B alone completes on a fresh VM; after A the process was ended (os.Exit / fatal): what A left behind did it
-				c.Violation(pc.Sig, fmt.Sprintf("B alone completes (%s), B after A ends the whole process (%s ; %s)", clip(pc.B.vmOutcome.key(false), 200), pc.A.Name, pc.B.Name),
+				c.Violation(pc.Sig, fmt.Sprintf("B alone completes (%s), B after A ends the whole process (%s ; %s)", clip(pc.B.alone.key(false), 200), pc.A.Name, pc.B.Name),
 					repCase{Kind: "pair", P: stripped(pc.B), A: ptr(stripped(pc.A)), Mode: pc.Sig})
 				continue
 			}
 			c.Note("pair %s ; %s: the in-process runner died", pc.A.Name, pc.B.Name)
 			continue
 		}
-		alone := pc.B.vmOutcome.key(pc.B.MaskLog)
+		alone := pc.B.alone.key(pc.B.MaskLog)
 		var diff *Outcome
 		for j := range r.Ans.Distinct[1] {
 			if r.Ans.Distinct[1][j].key(pc.B.MaskLog) != alone {
@@ -198,9 +250,40 @@ func (e *env) pairCheck(cases []pairCase, main bool) {
 			continue
 		}
 		sig := "residue:" + featureOf(pc.A) + "->" + featureOf(pc.B)
-		c.Violation(sig, fmt.Sprintf("a program run on a fresh VM behaves differently after another program ran on another VM of the same process: A=%s B=%s; B alone %q, B after A %q",
+		c.Violation(sig, fmt.Sprintf("a program run on a fresh VM behaves differently after another program ran on another VM of the same process: A=%s B=%s; B as the first program of a fresh process %q, B after A %q",
 			pc.A.Name, pc.B.Name, clip(alone, 400), clip(diff.key(pc.B.MaskLog), 400)),
 			repCase{Kind: "pair", P: stripped(pc.B), A: ptr(stripped(pc.A))})
+	}
+	_ = main
+}
+
+// channelProgsAgainstCLI: the hand-written channel programs (both sides) exercise ends of a run that
+// the generated pool rarely reaches (a throw inside an open output buffer, shutdown and header
+// callbacks, fatal errors before any output): each is also run by `origami <file>` and the in-process
+// runner must show the same for it as the first program of a fresh process.
+func (e *env) channelProgsAgainstCLI(cases []pairCase) {
+	if e.bin == "" {
+		return
+	}
+	seen := map[*prog]bool{}
+	var ps []*prog
+	for _, pc := range cases {
+		for _, p := range []*prog{pc.A, pc.B} {
+			if p.Origin == "dirty" && !p.NoVM && !seen[p] && p.procOutcome == nil {
+				seen[p] = true
+				ps = append(ps, p)
+			}
+		}
+	}
+	if len(ps) == 0 {
+		return
+	}
+	e.aloneOf(ps)
+	for i, t := range procRepeat(e.bin, ps, 1, e.c.Workers) {
+		if t.distinct() == 1 && !t.unbounded() {
+			ps[i].procOutcome = &t.first[0]
+			e.cliAgainstRunner(ps[i])
+		}
 	}
 }
 
